@@ -107,7 +107,10 @@ def gen_universe(rng, tier: str = "quick") -> dict:
     if r < 0.12 and not tapes.get("w.fail.set") and not tapes.get("w.fail.pres"):
         scn["cfg"]["persist"] = True
         k = rng.randint(0, len(ops))
-        scn["ops"] = ops[:k] + [["diskfault", rng.choice(["open", "write"]), [rng.choice(["ENOSPC", "EIO"])]]] + ops[k:]
+        if rng.random() < 0.5:
+            scn["ops"] = ops[:k] + [["diskfault", rng.choice(["open", "write"]), [rng.choice(["ENOSPC", "EIO"])]]] + ops[k:]
+        else:
+            scn["ops"] = [op for op in ops[:k] if op[0] != "reenter"] + [["restart", rng.random() < 0.5]] + ops[k:]
         scn["tapes"] = {}
     else:
         scn = G.maybe_tcp(rng, scn, share=0.15)
